@@ -144,6 +144,29 @@ func (m *Machine) call(caller *frame, fn Value, args []Value, site *ssa.CallComm
 	panic(fmt.Sprintf("cannot call %T", fn))
 }
 
+func (m *Machine) callTolerant(fr *frame, fn Value, args []Value, instr *ssa.Call) (res Value) {
+	defer func() {
+		if r := recover(); r != nil {
+			pe, isPE := r.(pathEnd)
+			_, isIE := r.(internalErr)
+			_, isTP := r.(targetPanic)
+			if (isPE && pe.Kind == "unsupported") || isIE || isTP {
+				m.initProblems = append(m.initProblems, fmt.Sprintf("%s: initialiser call %s skipped: %v", fr.fn.Pkg.Pkg.Path(), describeFn(fn), r))
+				if instr.Type() != nil {
+					if tup, ok := instr.Type().(*types.Tuple); ok && tup.Len() == 0 {
+						res = nil
+						return
+					}
+					res = m.zero(instr.Type())
+				}
+				return
+			}
+			panic(r)
+		}
+	}()
+	return m.call(fr, fn, args, &instr.Call)
+}
+
 func (m *Machine) callFunction(caller *frame, fn *ssa.Function, args []Value, env []Value) Value {
 	intr, cached := m.fnCache[fn]
 	if !cached {
@@ -393,7 +416,13 @@ func (fr *frame) visit(instr ssa.Instruction) continuation {
 
 	case *ssa.Call:
 		fn, args := fr.prepareCall(&instr.Call)
-		fr.env[instr] = m.call(fr, fn, args, &instr.Call)
+		if m.inInit && fr.fn.Synthetic == "package initializer" {
+			// a package-level initialiser that needs an unmodelled operation leaves its variable
+			// zero-valued instead of aborting the initialisation of the whole package
+			fr.env[instr] = m.callTolerant(fr, fn, args, instr)
+		} else {
+			fr.env[instr] = m.call(fr, fn, args, &instr.Call)
+		}
 
 	case *ssa.ChangeInterface:
 		fr.env[instr] = fr.get(instr.X)
